@@ -105,7 +105,7 @@ def run(tier, seed):
     jobs += [('lexemes', nl, s) for s in X.prefix_shards(c05.LEXEMES, nl, 1)]
     ln = 4 if tier == 'quick' else 6
     jobs += [('layoutlex', ln, s) for s in X.prefix_shards(LAYOUT_LEX, ln, 1 if tier == 'quick' else 2)]
-    lits = [x for gen in (c06.esc_cases, c06.prefix_cases, c06.newline_cases, c06.concat_cases) for x in gen(tier) if tier != 'quick' or x[0] != 'escape-u']
+    lits = [x for gen in (c06.esc_cases, c06.prefix_cases, c06.newline_cases, c06.quote_run_cases, c06.concat_cases, c06.big_numbers, c06.float_cases) for x in gen(tier) if tier != 'quick' or x[0] != 'escape-u']
     if tier != 'quick':
         lits += list(c06.name_cases(tier))
     jobs += [('literals', ch) for ch in X.chunks(iter(lits), 4000)]
